@@ -1,7 +1,7 @@
 (* Static part of the C09 tie: vocabulary of the generated file Tables/ExtCasesGen.v (written by
    tools/props/c09.py from the `ext` engine's output on every run) and the functions that run
    the MODEL (Ms/ExtModel.v) on the same inputs.  Compared inside Coq by ExtCasesCheck.v. *)
-From Verif Require Export ExtModel.
+From Verif Require Export ExtModel ExtTlSpec.
 From Verif Require LiftLimits.
 Local Open Scope N_scope.
 
@@ -216,3 +216,37 @@ Fixpoint limit_diag (i : N) (cases : list vcase) : list (N * N * bool) :=
     if vcase_ok v then limit_diag (i + 1) r
     else (i, validate_limits (v_ctx v) (v_ms v), model_within (v_ctx v) (v_ms v)) :: limit_diag (i + 1) r
   end.
+
+(* ---- H lines: the recursion-depth checks on `n:` chains above c:pk_k(K0), built bottom-up with from_ast ----
+   (level, Some height when from_ast accepted / None when it refused, [(max_recursive_depth, validate said ok)]) *)
+Definition depth_chain (level : N) : ms := N.iter level MZeroNotEqual (MCheck (MPkK 0)).
+Definition hcase := (N * option N * list (N * bool))%type.
+Definition hcase_model (level : N) : option N :=
+  if built_by_from_ast as_written (cx CTap) (depth_chain level)
+  then Some (tree_height (ext_of (cx CTap) (depth_chain level))) else None.
+Definition hcase_ok (h : hcase) : bool :=
+  let '(lv, acc, vds) := h in
+  on_eqb (hcase_model lv) acc
+  && forallb (fun p : N * bool => Bool.eqb (validate_depth_ok (fst p) (ext_of (cx CTap) (depth_chain lv))) (snd p)) vds.
+Definition depth_diag (cases : list hcase) : list (N * option N) :=
+  map (fun h : hcase => (fst (fst h), hcase_model (fst (fst h)))) (filter (fun h => negb (hcase_ok h)) cases).
+
+(* ---- key-only descriptors (pkh / wpkh / sh(wpkh)): max_weight_to_satisfy and the deprecated
+   max_satisfaction_weight (absolute weight: scriptSig with its length prefix, witness with its count) ---- *)
+Inductive kokind := KPkh | KWpkh | KShWpkh.
+Definition ko_pklen (unc : bool) : N := if unc then 66 else 34.     (* BareCtx::pk_len / Segwitv0::pk_len *)
+Definition keyonly_weight (k : kokind) (unc : bool) : N :=
+  match k with KPkh => pkh_weight (ko_pklen unc) | KWpkh => wpkh_weight | KShWpkh => sh_wpkh_weight end.
+Definition keyonly_old_weight (k : kokind) (unc : bool) : N :=
+  match k with
+  | KPkh => 4 * (1 + 73 + ko_pklen unc)
+  | KWpkh => 4 + 1 + 73 + 34
+  | KShWpkh => 4 * 23 + (4 + 1 + 73 + 34)
+  end.
+(* (kind, uncompressed key, max_weight_to_satisfy, max_satisfaction_weight) *)
+Definition kcase := (kokind * bool * N * N)%type.
+Definition kcase_ok (k : kcase) : bool :=
+  let '(kd, unc, mw, msw) := k in (keyonly_weight kd unc =? mw) && (keyonly_old_weight kd unc =? msw).
+Definition keyonly_diag (cases : list kcase) : list (kokind * bool * N * N) :=
+  map (fun k : kcase => let '(kd, unc, _, _) := k in (kd, unc, keyonly_weight kd unc, keyonly_old_weight kd unc))
+      (filter (fun k => negb (kcase_ok k)) cases).
